@@ -237,6 +237,55 @@ func init() {
 		"Implies": func(fr *frame, args []value) value {
 			return wrapBool(mkOr(mkNot(boolTerm(args[0])), boolTerm(args[1])))
 		},
+		// PickStr(idx, alts...) selects a string by a (possibly symbolic)
+		// index without forking when all alternatives have equal length.
+		"PickStr": func(fr *frame, args []value) value {
+			alts := args[1].([]value)
+			si, ok := args[0].(symInt)
+			if !ok {
+				return alts[args[0].(int)]
+			}
+			n := -1
+			same := true
+			for _, a := range alts {
+				s, isS := a.(string)
+				if !isS {
+					same = false
+					break
+				}
+				if n >= 0 && len(s) != n {
+					same = false
+				}
+				n = len(s)
+			}
+			if !same {
+				return alts[fr.concInt(si)]
+			}
+			fr.ps().assume(mkCmp("bvult", si.t, mkBV(64, uint64(len(alts)))))
+			out := make([]value, n)
+			for k := 0; k < n; k++ {
+				t := mkBV(8, uint64(alts[len(alts)-1].(string)[k]))
+				for a := len(alts) - 2; a >= 0; a-- {
+					t = mkIte(mkEq(si.t, mkBV(64, uint64(a))), mkBV(8, uint64(alts[a].(string)[k])), t)
+				}
+				out[k] = wrapInt(types.Uint8, t)
+			}
+			return mkStr(out)
+		},
+		"PickInt": func(fr *frame, args []value) value {
+			alts := args[1].([]value)
+			si, ok := args[0].(symInt)
+			if !ok {
+				return alts[args[0].(int)]
+			}
+			fr.ps().assume(mkCmp("bvult", si.t, mkBV(64, uint64(len(alts)))))
+			t, _ := termOf(alts[len(alts)-1])
+			for a := len(alts) - 2; a >= 0; a-- {
+				ta, _ := termOf(alts[a])
+				t = mkIte(mkEq(si.t, mkBV(64, uint64(a))), ta, t)
+			}
+			return wrapInt(types.Int, t)
+		},
 		"B2I": func(fr *frame, args []value) value {
 			return wrapInt(types.Int, mkIte(boolTerm(args[0]), mkBV(64, 1), mkBV(64, 0)))
 		},
@@ -361,6 +410,28 @@ func (fr *frame) fmtArgs(args value) []any {
 // string that aborts the path if anything ever inspects it.
 func (fr *frame) sprintf(format string, argv []value, forMessage bool) value {
 	format = strings.ReplaceAll(format, "%w", "%v")
+	// symbolic integers/bools: render lazily, so that text that is only
+	// logged or wrapped into an error never forces a case split
+	for _, a := range argv {
+		if itf, ok := a.(iface); ok {
+			switch itf.v.(type) {
+			case symInt, symBool:
+				hint := format
+				for _, b := range argv {
+					hint += " " + fr.i.display(b)
+				}
+				return &symStr{opaque: hint, lazy: func() []value {
+					r := fr.sprintfNow(format, argv)
+					return strElems(r)
+				}}
+			}
+		}
+	}
+	return fr.sprintfNow(format, argv)
+}
+
+func (fr *frame) sprintfNow(format string, argv []value) value {
+	forMessage := false
 	anySym := false
 	for _, a := range argv {
 		if itf, ok := a.(iface); ok && containsSym(itf.v) {
@@ -443,12 +514,8 @@ func (fr *frame) sprintf(format string, argv []value, forMessage bool) value {
 		}
 		switch x := sv.(type) {
 		case *symStr:
-			if x.opaque != "" {
-				opaque = true
-				emit(x.opaque)
-				continue
-			}
 			if spec == "%s" || spec == "%v" {
+				x.force()
 				out = append(out, x.b...)
 				continue
 			}
